@@ -791,6 +791,12 @@ static int handleConfigResponse(KSI_HighAvailabilityService *has, KSI_AsyncServi
 			KSI_Utf8String_free(reqHndl->errMsg);
 			reqHndl->errMsg = NULL;
 		}
+
+		/* A configuration request has been answered: errors from the other subservices
+		 * must not complete it with an error any more (they are reported as notices). */
+		if (haRequest->hasReq == false && reqState != KSI_ASYNC_STATE_RESPONSE_RECEIVED) {
+			reqHndl->state = KSI_ASYNC_STATE_RESPONSE_RECEIVED;
+		}
 	}
 
 	res = KSI_AsyncHandle_getConfig(respHndl, &pushConf);
